@@ -54,6 +54,21 @@ def quotasWhy (afterPrepare : Pop W) (n : Nat) : String :=
   else if afterPrepare.species.any (fun s => s.orgs.any (·.toEliminate)) then "organism marked for elimination still present"
   else ""
 
+/-- C09: only the top floor(survival_thresh*n)+1 organisms of a species (n = its size before the turnover) remain available
+    as parents after the preparation phase -/
+def parentsWhy (o : EpochOpts W) (before afterPrepare : Pop W) : String :=
+  match afterPrepare.species.find? (fun (s' : Species W) =>
+      match before.species.find? (fun (s : Species W) => s.id == s'.id) with
+      | none => true
+      | some s =>
+        let n := s.orgs.length
+        let numParents := floorInt (add (mul o.survivalThresh (ofInt n)) one)
+        let expected : Int := if numParents < 0 then 0 else if numParents > n then n else numParents
+        (s'.orgs.length : Int) != expected) with
+  | some (s' : Species W) => "species " ++ toString s'.id ++ ": " ++ toString s'.orgs.length ++
+      " organisms left as parents, expected floor(survival_thresh*n)+1 of the species' size before the turnover"
+  | none => ""
+
 def genomeEqModId (weq : W → W → Bool) (a b : Genome W) : Bool :=
   MutationSpec.traitsEq weq a.traits b.traits && a.nodes == b.nodes && MutationSpec.genesEq weq a.genes b.genes
 
